@@ -29,6 +29,8 @@ def time_grid(kind: str, n: int, T: float, seed: int = 0) -> np.ndarray:
         if n <= 4:
             return base[:n]
         return np.concatenate([base, 1e6 + 1e5 * np.arange(1, n - 3)])
+    if kind == "integer":  # integer dtype, e.g. days on production
+        return np.arange(n, dtype=np.int64)
     if kind == "onestep":
         return np.array([0.0, 1e7])
     raise KeyError(kind)
